@@ -306,7 +306,7 @@ def worker_main(argv):
         v = dict(r2.violation)
       small['expect'] = dict(kind=v['kind'], detail=v.get('detail', ''), digest=r2.digest)
       small['property'] = prop
-      if getattr(mod, 'CROSS_RUN_STATE', False) and f0 is None:
+      if getattr(mod, 'CROSS_RUN_STATE', True) and f0 is None:
         # properties about hidden process state: a violation may depend on what EARLIER runs of this worker
         # process left behind.  Confirm in a fresh interpreter; fall back to the unshrunk plan, then to a
         # replay file that carries the preceding runs of this process as a prelude (shortest suffix that fails).
